@@ -186,13 +186,16 @@ pub fn vector_mut_copy(vm: &mut Vm) -> Result<VCell, Error> {
     let start = start.unwrap_or(0);
     let end = end.unwrap_or_else(|| from_vector.len());
 
-    if ((end - start) > to_vector.len()) || (at + end) > to_vector.len() {
+    if at + (end - start) > to_vector.len() {
         return Err(InvalidSyntax("vector-copy!: to vector is too small".into()));
     }
 
-    for i in start..end {
-        let val = from_vector.get(i).unwrap();
-        to_vector.put(i + at, val);
+    // Read the whole source range first: the vectors may be the same, overlapping object.
+    let vals = (start..end)
+        .map(|i| from_vector.get(i).unwrap())
+        .collect::<Vec<VCell>>();
+    for (i, val) in vals.into_iter().enumerate() {
+        to_vector.put(at + i, val);
     }
 
     Ok(VCell::Void)
